@@ -9,7 +9,7 @@ The unchecked models compute on unbounded `Nat` (`+` never overflows, `-` trunca
 is implicit).  The Rust code computes on `u32` / `u64` / `usize` and a checked (debug) build PANICS
 on `+ - *` overflow, on `s[i]` / `&s[a..b]` out of range and on `copy_from_slice` with different
 lengths.  The functions below mirror the Rust code branch for branch and put a *panicking*
-primitive (`padd32`, `padd64`, `psub`, `pmul64`, `pIndexTo`, `pIndexFrom`, `pIndex`, `pCopyLen`) at
+primitive (`padd32`, `padd64`, `psub`, `pmulUsize`, `pIndexTo`, `pIndexFrom`, `pIndex`, `pCopyLen`) at
 exactly the Rust sites (one `-- src: file.rs:line expression` comment per site); the unchecked
 accesses of the typed reads and conversions (`&*(p as *const T)`, `slice::from_raw_parts`,
 `get_unchecked`, `ptr::read_unaligned`) go through `rawRef` (`Out.ub` when outside the buffer or
@@ -29,7 +29,7 @@ namespace Pelite
 /-! ### primitives (kept here, not in `Prim/Basic.lean`, so that nothing else is rebuilt) -/
 
 /-- `a * b` on `usize` / `u64`: panics on overflow in a checked build -/
-@[inline] def pmul64 (site : String) (a b : Nat) : Out Nat :=
+@[inline] def pmulUsize (site : String) (a b : Nat) : Out Nat :=
   if a * b < 18446744073709551616 then .ok (a * b) else .panic site
 /-- `&s[..n]` / `&mut s[..n]` on a slice of length `len`: the length of the result -/
 @[inline] def pIndexTo (site : String) (len n : Nat) : Out Nat := if n ≤ len then .ok n else .panic site
@@ -73,14 +73,14 @@ def validateChk (f : Fmt) (img : Img) : Out Nat :=
       else do
         let nrs := min (numberOfRvaAndSizes f b) 16                   -- pe.rs:826
         -- src: pe.rs:827 num_rva_sizes * mem::size_of::<IMAGE_DATA_DIRECTORY>()
-        let sdd ← pmul64 "pe.rs:827 num_rva_sizes * size_of DD" nrs 8
+        let sdd ← pmulUsize "pe.rs:827 num_rva_sizes * size_of DD" nrs 8
         -- src: pe.rs:828 nt_end + size_of_data_dir
         let ddEnd ← padd64 "pe.rs:828 nt_end + size_of_data_dir" ntEnd sdd
         if ddEnd > b.size then .err .bounds
         else if numberOfSections b > 96 then .err .insanity           -- pe.rs:833
         else do
           -- src: pe.rs:837 nt.FileHeader.NumberOfSections as usize * mem::size_of::<IMAGE_SECTION_HEADER>()
-          let sos ← pmul64 "pe.rs:837 NumberOfSections as usize * size_of SH" (numberOfSections b) 40
+          let sos ← pmulUsize "pe.rs:837 NumberOfSections as usize * size_of SH" (numberOfSections b) 40
           -- src: pe.rs:840-841 dos.e_lfanew as usize + (size_of NT - size_of OPT)
           let t ← padd64 "pe.rs:841 e_lfanew as usize + (size_of NT - size_of OPT)" (eLfanew b) (f.ntSize - f.optSize)
           -- src: pe.rs:842 + nt.FileHeader.SizeOfOptionalHeader as usize
@@ -328,7 +328,7 @@ def View.checkSumChk (v : View) : Out Nat := do
   let n := len / 4                                                     -- headers.rs:39 image.len() / 4
   let c ← csumLoopChk v.b pos n n 0
   -- src: headers.rs:52 &image[dwords.len() * 4..]
-  let tstart ← pmul64 "headers.rs:52 dwords.len() * 4" n 4
+  let tstart ← pmulUsize "headers.rs:52 dwords.len() * 4" n 4
   let tlen ← pIndexFrom "headers.rs:52 &image[dwords.len() * 4..]" len tstart
   let c ← (if tlen ≠ 0 then do                                         -- headers.rs:53
       -- src: headers.rs:55 last[..tail.len()].copy_from_slice(tail)
@@ -396,7 +396,7 @@ def sliceFLoopChk (img : Img) (off blen size align : Nat) (stop : Nat → Bool) 
   | 0 => .diverge
   | fuel+1 => do
     -- src: pe.rs:353 / 441 len * mem::size_of::<T>()
-    let offset ← pmul64 "pe.rs:353 len * size_of::<T>()" len size
+    let offset ← pmulUsize "pe.rs:353 len * size_of::<T>()" len size
     -- src: pe.rs:354 / 442 offset + mem::size_of::<T>() > bytes.len()
     let e ← padd64 "pe.rs:354 offset + size_of::<T>()" offset size
     if e > blen then .err .bounds
@@ -450,7 +450,7 @@ def wstrFromBytesChk (img : Img) (off len : Nat) : Out (Option Ref) := do
   -- src: wide_str.rs:56 *p as usize + 1
   let n ← padd64 "wide_str.rs:56 *p as usize + 1" (le16 img.bytes p.off) 1
   -- src: wide_str.rs:57 len * 2 > bytes.len()
-  let nb ← pmul64 "wide_str.rs:57 len * 2" n 2
+  let nb ← pmulUsize "wide_str.rs:57 len * 2" n 2
   if nb > len then .ok none
   else do
     -- src: wide_str.rs:60 slice::from_raw_parts(p, len)
